@@ -1116,7 +1116,11 @@ func (x *Exec) evalBuiltin(st *State, call *ast.CallExpr, name string) T {
 		}
 		return a
 	case "close":
-		x.eval(st, call.Args[0])
+		ch := x.eval(st, call.Args[0])
+		// caller-side asserts may be anchored at `call:close`
+		cc := &callee{name: "builtin.close"}
+		cc.argVals = []T{ch}
+		x.callAnchor(st, cc, call, "builtin.close")
 		return T{}
 	case "print", "println":
 		return T{}
